@@ -180,8 +180,8 @@ example :
        .u 13, .u 13, .u 13, .u 13, .req (.httpDelta true 1), .req (.rtrDiff true 3),
        .req (.rtrDiff false 3), .req (.rtrDiff true 0), .req .rtrFull]).map
         (fun s => s.resps.map (·.payload))
-      = some [.full 3 13, .refused, .refused, .same 3 3, .delta 1 3 11 13, .full 2 12, .full 2 12,
-              .delta 0 1 10 11, .full 0 10, .none, .none, .none] := by
+      = some [.full 3 13, .delta 0 3 10 13, .refused, .same 3 3, .delta 1 3 11 13, .delta 0 2 10 12,
+              .delta 0 2 10 12, .delta 0 1 10 11, .full 0 10, .none, .none, .none] := by
   decide
 
 end RoutinatorModel
